@@ -15,6 +15,7 @@ import (
 	"strconv"
 	"strings"
 	"sync"
+	"syscall"
 	"testing"
 	"time"
 
@@ -325,12 +326,22 @@ var (
 	libName     string
 	libSince    time.Time
 	libLimit    time.Duration
+	libCPU      time.Duration
 	libWatchdog sync.Once
 )
 
 const libHangLimit = 60 * time.Second
 
 func Lib(name string, fn func()) { LibT(name, libHangLimit, fn) }
+
+// processCPU: user+system CPU time consumed by this process so far.
+func processCPU() time.Duration {
+	var ru syscall.Rusage
+	if syscall.Getrusage(syscall.RUSAGE_SELF, &ru) != nil {
+		return 0
+	}
+	return time.Duration(ru.Utime.Nano() + ru.Stime.Nano())
+}
 
 // LibT is Lib with its own limit.  Calls nest: the inner call takes over the watchdog and hands it back.
 func LibT(name string, limit time.Duration, fn func()) {
@@ -344,9 +355,12 @@ func LibT(name string, limit time.Duration, fn func()) {
 			for {
 				time.Sleep(time.Second)
 				libMu.Lock()
-				n, since, lim := libName, libSince, libLimit
+				n, since, lim, cpu0 := libName, libSince, libLimit, libCPU
 				libMu.Unlock()
-				if n != "" && time.Since(since) > lim {
+				// A call that does not return burns CPU: the limit is on the CPU time this process has used since
+				// the call began, so that a busy machine (the wall clock runs, the process does not) cannot make a
+				// slow call look like a hang; the wall clock is only a backstop at ten times the limit.
+				if n != "" && (processCPU()-cpu0 > lim || time.Since(since) > 10*lim) {
 					if path := os.Getenv("VERIF_INFLIGHT"); path != "" {
 						os.WriteFile(path+".libhang", []byte(n), 0o644)
 					}
@@ -357,12 +371,12 @@ func LibT(name string, limit time.Duration, fn func()) {
 		}()
 	})
 	libMu.Lock()
-	pn, ps, pl := libName, libSince, libLimit
-	libName, libSince, libLimit = name, time.Now(), limit
+	pn, ps, pl, pc := libName, libSince, libLimit, libCPU
+	libName, libSince, libLimit, libCPU = name, time.Now(), limit, processCPU()
 	libMu.Unlock()
 	defer func() {
 		libMu.Lock()
-		libName, libSince, libLimit = pn, ps, pl
+		libName, libSince, libLimit, libCPU = pn, ps, pl, pc
 		libMu.Unlock()
 	}()
 	fn()
